@@ -28,6 +28,7 @@ Fails(r) ==
             \cup Unless(r.raised \/ TunerOptimal(r.scores, r.dir, r.best), "C19.optimal")
             \cup Unless(r.raised \/ r.score_ok, "C19.score")
             \cup Unless(r.raised \/ r.resolve = r.best, "C19.resolve")
+            \cup Unless(r.raised \/ r.again_ok, "C19.reuse")       \* a second execute() on the same tuner answers for the new task
       [] OTHER -> {"C19.unknown_record"}
 Init == i = 1 /\ bad = {}
 Step == i <= Len(Recs) /\ bad' = bad \cup {<<Recs[i].id, cl>> : cl \in Fails(Recs[i])} /\ i' = i + 1
